@@ -78,6 +78,8 @@ fn families(n: usize) -> Vec<Case> {
     let h = (f32::MAX as f64 / (4.0 * n as f64 + 4.0)).sqrt() as f32 * 0.5;
     out.push(Case { family: "huge bounded", u: (0..n).map(|i| if i % 2 == 0 { h } else { -h }).collect(), v: (0..n).map(|i| if i % 4 < 2 { h * 0.5 } else { -h * 0.25 }).collect(), note: String::new() });
     // tiny values
+    // one operand of tiny norm (1e-8 scale, far above underflow), the other large: the product of the norms is ordinary
+    out.push(Case { family: "mixed scale", u: (0..n).map(|i| 1.0e-8 * ((i % 7) as f32 - 2.5)).collect(), v: (0..n).map(|i| 1.0e4 * ((i % 5) as f32 - 1.75)).collect(), note: String::new() });
     out.push(Case { family: "tiny", u: (0..n).map(|i| 1.0e-30 * (1 + i % 5) as f32).collect(), v: (0..n).map(|i| -3.0e-31 * (1 + i % 3) as f32).collect(), note: String::new() });
     // identical operands
     out.push(Case { family: "self", u: (0..n).map(|i| (i as f32 * 0.37).sin() * 3.0 + 0.1).collect(), v: (0..n).map(|i| (i as f32 * 0.37).sin() * 3.0 + 0.1).collect(), note: String::new() });
